@@ -49,8 +49,8 @@ def slices(tier, rng):
     def mk(name, k, ps, nfmax, kinds, orders):
         return Slice(name, 't_graph', 3 + 7 * k, lambda a: assume(a, k, ps, nfmax, kinds, orders),
                      opts={'must_reach': ['ok', 'err']}, ctx={'k': k, 'ps': ps})
-    sc4 = [0, 1, 2, 3, 4, 5, 7]; sc8 = [6, 1, 2, 3, 4, 5]
-    out.append(mk('k2-nf2-ps4', 2, 4, 2, [0, 1, 2, 4, 5], [0] if tier == 'quick' else [0, 1]))
+    sc4 = [0, 1, 2, 3, 4, 5, 7, 8]; sc8 = [6, 1, 2, 3, 4, 5, 8]
+    out.append(mk('k2-nf2-ps4', 2, 4, 2, [0, 1, 2, 8, 5], [0] if tier == 'quick' else [0, 1]))
     out.append(mk('k3-nf1-ps4', 3, 4, 1, sc4, [1] if tier == 'quick' else [0, 1]))
     out.append(mk('k2-nf1-ps8', 2, 8, 1, sc8, [0, 1, 2]))
     if tier != 'quick':
@@ -66,10 +66,10 @@ def spec(a, k):
     def present(i, j): return z3.UGT(nf[i], j)
     def undefined(i, j):
         kd, tg = fld(a, i, j)
-        return z3.And(present(i, j), z3.Or(kd == 5, z3.And(z3.Or(kd == 1, kd == 2, kd == 3, kd == 4), tg == k)))
+        return z3.And(present(i, j), z3.Or(kd == 5, z3.And(z3.Or(kd == 1, kd == 2, kd == 3, kd == 4, kd == 8), tg == k)))
     def byvalue(i, j, t):
         kd, tg = fld(a, i, j)
-        return z3.And(present(i, j), z3.Or(kd == 1, kd == 3, kd == 4), tg == t)
+        return z3.And(present(i, j), z3.Or(kd == 1, kd == 3, kd == 4, kd == 8), tg == t)
     res = [z3.BoolVal(False)] * k
     for _ in range(k + 1):
         new = []
@@ -93,6 +93,7 @@ def type_of_field(kd, tg, mods):
     if kd in (1, 4): return ['raw', tn(tg)]
     if kd == 2: return ['const*', ['raw', tn(tg)]]
     if kd == 3: return ['array', ['raw', tn(tg)], 2]
+    if kd == 8: return ['array', ['raw', tn(tg)], 0]
     return None
 
 
@@ -129,7 +130,7 @@ def leaf_queries(I, a, leaf, py, sl):
             if r.name != ['p', 'q'][j]: bad.append(z3.BoolVal(True)); continue
             kd, tg = fld(a, i, j)
             # the region's type must be the declared one: enumerate the (kind, target) pairs it is not
-            for kk in (0, 1, 2, 3, 4, 6, 7):
+            for kk in (0, 1, 2, 3, 4, 6, 7, 8):
                 for tt in range(k):
                     if kk in (0, 6, 7) and tt > 0: continue
                     if type_of_field(kk, tt, mods) != r.type or (r.is_base != (kk == 4)):
@@ -152,7 +153,7 @@ def describe(template, args):
         for j in range(min(a[b + 1], 2)):
             kd, tg = a[b + 2 + 2 * j], a[b + 3 + 2 * j]
             tn = TN[tg] if tg < 5 else '?'
-            ty = {0: 'u32', 1: tn, 2: '*const ' + tn, 3: '[%s; 2]' % tn, 4: tn, 5: 'Nope', 6: 'u64', 7: 'E'}.get(kd, '?')
+            ty = {0: 'u32', 1: tn, 2: '*const ' + tn, 3: '[%s; 2]' % tn, 4: tn, 5: 'Nope', 6: 'u64', 7: 'E', 8: '[%s; 0]' % tn}.get(kd, '?')
             fs.append('%spub %s: %s' % ('#[base] ' if kd == 4 else '', 'pq'[j], ty))
         out.append('module %s: pub type %s { %s }' % ('n' if a[b] else 'm', TN[i], ', '.join(fs)))
     return '\n'.join(out)
